@@ -236,6 +236,43 @@ def c02_len_constraint_zero_bound():
 
 
 @case
+def c02_len_constraint_merge_contradiction():
+    model = '''
+    @invariant(lambda self: len(self.xs) >= 10, "at least ten")
+    class Parent(DBC):
+        xs: List[str]
+        def __init__(self, xs: List[str]) -> None:
+            self.xs = xs
+
+    @invariant(lambda self: len(self.xs) <= 5, "at most five")
+    class Child(Parent):
+        def __init__(self, xs: List[str]) -> None:
+            Parent.__init__(self, xs)
+    '''
+    rc, out, err, exc, tmp = run_main(model, "jsonschema")
+    report("c02_len_constraint_merge_contradiction", exc is not None, f"rc={rc} exc={type(exc).__name__ if exc else None}")
+    shutil.rmtree(tmp)
+
+
+@case
+def c20_float_default_repr():
+    model = '''
+    class Something(DBC):
+        x: float
+        def __init__(self, x: float = 2.5) -> None:
+            self.x = x
+    '''
+    bad = {}
+    for t in ("python", "csharp"):
+        rc, out, err, exc, tmp = run_main(model, t)
+        hits = [p for p in (tmp / "out").rglob("*") if p.is_file() and "DefaultPrimitive object at" in p.read_text(errors="ignore")]
+        if hits:
+            bad[t] = [h.name for h in hits]
+        shutil.rmtree(tmp)
+    report("c20_float_default_repr", bool(bad), f"generated files containing the repr of the default: {bad}")
+
+
+@case
 def c16_retree_crashes():
     from aas_core_codegen.parse import retree
     res = {}
